@@ -260,7 +260,7 @@ func TestC02(t *testing.T) {
 				j = "wal"
 			}
 			st.Case(nt, p.Mode+"-"+when+"-"+strings.Fields(p.Desc)[0], j)
-			if st.WantSample() && p.Seq%13 == 0 {
+			if st.WantSample() {
 				st.Sample(map[string]interface{}{"point": p, "wal": wal, "chain": sc.Summary()})
 			}
 			if msg != "" {
